@@ -26,10 +26,10 @@ pub fn gamma() -> Gamma {
 fn run(r: &mut Run) -> Result<(), MachineryError> {
     let g = gamma();
     let t = r.tier;
-    text_space(r, "C02/small", &[L, SP, HY, NL, W, CM, OP, CSI], t.pick(4, 6), &g, M_C02, WidthMode::Display, 4)?;
-    text_space(r, "C02/tokens", &[L, LL, LLL, SP, SP2, HY, NL, W, E2], t.pick(4, 5), &g, M_C02, WidthMode::Display, 3)?;
+    text_space(r, "C02/small", &[L, SP, HY, NL, W, CM, OP, CSI], t.pick(4, 7), &g, M_C02, WidthMode::Display, 4)?;
+    text_space(r, "C02/tokens", &[L, LL, LLL, SP, SP2, HY, NL, W, E2], t.pick(4, 6), &g, M_C02, WidthMode::Display, 3)?;
     text_space(r, "C02/rich", &[L, SP, HY, TAB, ZW, NB, OP, CL, EM, E2, NL, D], t.pick(3, 5), &g, M_C02, WidthMode::Display, 3)?;
-    text_space(r, "C02/sequences-with-hyphens", &[L, SP, HY, OSH, CSI, NL, D], t.pick(4, 5), &g, M_C02, WidthMode::Display, 3)?;
+    text_space(r, "C02/sequences-with-hyphens", &[L, SP, HY, OSH, CSI, NL, D], t.pick(4, 6), &g, M_C02, WidthMode::Display, 3)?;
     char_context_space(r, "C02/all-characters-in-context", M_C02, vec![Alg::FirstFit])?;
     escape_scan_space(r, "C02/escape-grammar-scan", M_C02, vec![Alg::FirstFit])?;
     Ok(())
